@@ -95,7 +95,7 @@ def oracle(name, ib, mb, meta):
         return fails
     if name.startswith('ctor'):
         for i, b in enumerate(ib):
-            if b.op.startswith('ctor'):
+            if b.op.startswith('ctor') and 'live' in b.kv:
                 if b.kv.get('live') != '0': fails.append((i, 'constructor leaves %s allocation(s) live after its object was released (leak on the failure path)' % b.kv.get('live')))
                 if b.kv.get('ret') == 'ok' and b.op.split()[1] in ('mapping', 'enumeration') and b.kv.get('extra') != 'ok' and b.op.split()[1] == 'enumeration':
                     fails.append((i, 'enumeration constructor returned an automaton without its RepeatBand state'))
